@@ -193,6 +193,8 @@ def cross(u, v):
 
     :SymPy: supported
     """
+    u = getvector(u, 3)
+    v = getvector(v, 3)
     return np.r_[
         u[1] * v[2] - u[2] * v[1],
         u[2] * v[0] - u[0] * v[2],
